@@ -6,7 +6,9 @@ import (
 	"fmt"
 	"os"
 	"sort"
+	"strconv"
 	"strings"
+	"sync/atomic"
 	"time"
 
 	bolt "go.etcd.io/bbolt"
@@ -174,7 +176,41 @@ func c05Alphabet(all []string) []curCall {
 	return calls
 }
 
+// c05Beat counts cursor calls; c05Now describes the case and call in progress. A watchdog in the worker ends the
+// process when one single call has not returned for c05CallLimit: hang detection is per call, not per job, so a long
+// job on a slow machine is never mistaken for a call that does not return.
+var (
+	c05Beat      atomic.Int64
+	c05Now       atomic.Value // string
+	c05Active    atomic.Bool
+	c05CallLimit = 120 * time.Second
+)
+
+func c05Watchdog() {
+	if v, err := strconv.Atoi(os.Getenv("VERIF_C05_CALL_LIMIT_S")); err == nil && v > 0 {
+		c05CallLimit = time.Duration(v) * time.Second // for trying the watchdog itself
+	}
+	last, since := int64(-1), time.Now()
+	for {
+		time.Sleep(2 * time.Second)
+		if !c05Active.Load() {
+			last, since = -1, time.Now()
+			continue
+		}
+		if b := c05Beat.Load(); b != last {
+			last, since = b, time.Now()
+			continue
+		}
+		if time.Since(since) > c05CallLimit {
+			what, _ := c05Now.Load().(string)
+			fmt.Fprintf(os.Stderr, "\nC05-HANG: a cursor call has not returned for %s: %s\n", c05CallLimit, what)
+			os.Exit(3)
+		}
+	}
+}
+
 func doCall(c *bolt.Cursor, mc *refmodel.Cursor, call curCall) string {
+	c05Beat.Add(1)
 	var k, v []byte
 	var mk string
 	var me *refmodel.Ent
@@ -351,6 +387,9 @@ func c05Work(job c05Job) c05Res {
 			}
 		}
 		res.Cases++
+		c05Now.Store(fmt.Sprintf("shape %s, page size %d, keys deleted earlier in the same write tx: %s, put into gap %d (some sequence of up to %d calls)", sh.Name, job.PS, maskKeys(sh.Keys, mask), putGap, depth))
+		c05Active.Store(true)
+		defer c05Active.Store(false)
 		return c05Case(b, m, alpha, depth, &res, only)
 	}
 	if job.Replay {
@@ -396,8 +435,17 @@ func maskKeys(keys []string, mask int) string {
 }
 
 func init() {
+	JobFuncs["c05"] = func(b []byte) []byte {
+		go c05Watchdog()
+		var j c05Job
+		_ = json.Unmarshal(b, &j)
+		r := c05Work(j)
+		out, _ := json.Marshal(r)
+		return out
+	}
 	WorkerKinds["c05"] = func() {
 		defer hx.CleanWorkDir()
+		go c05Watchdog()
 		par.Serve(func(b []byte) []byte {
 			var j c05Job
 			_ = json.Unmarshal(b, &j)
@@ -428,6 +476,8 @@ func C05(tier string) int {
 			chunk := 8
 			if n <= 3 {
 				chunk = total
+			} else if depth >= 4 && n >= 10 {
+				chunk = 2
 			}
 			for lo := 0; lo < total; lo += chunk {
 				hi := lo + chunk
@@ -445,16 +495,22 @@ func C05(tier string) int {
 		jobs = append(jobs, b)
 	}
 	pool := par.NewPool(WorkersCPU(), "worker", "c05")
+	pool.Timeout = 60 * time.Minute
 	defer pool.Close()
 	var seqs, calls, cases int
 	var viols, errs []string
 	known := map[string]*Finding{}
 	_ = pool.Run(jobs, func(r par.Result) {
 		j := meta[r.Idx]
-		if r.Died || r.Hung {
-			what := "a cursor call never returned (worker exceeded the per-job deadline)"
-			if r.Died {
-				what = "worker crashed: " + lastLine(r.Stderr)
+		if r.Hung {
+			// the per-job limit is only a backstop (60 min); the per-call watchdog in the worker decides about hangs
+			errs = append(errs, fmt.Sprintf("job %+v exceeded the backstop limit", j))
+			return
+		}
+		if r.Died {
+			what := "worker crashed: " + lastLine(r.Stderr)
+			if i := strings.Index(r.Stderr, "C05-HANG: "); i >= 0 {
+				what = strings.TrimSpace(r.Stderr[i+len("C05-HANG: "):])
 			}
 			msg := fmt.Sprintf("shape %s masks [%d,%d): %s", c05Shapes(j.PS)[j.Shape].Name, j.MaskLo, j.MaskHi, what)
 			if f := MatchFinding("C05", nil, "hang", msg); f != nil {
